@@ -558,7 +558,7 @@ void ExecImpl::op_wide(const Op& op) {
       if (p == 2 && (R.mode[k] == WM_REF || R.mode[k] == WM_PTR)) wv = 1000 + k;   // written through by an earlier side effect
       if (R.seen[p][k].val != wv) { fail("C09", "wide_position", who + ": _" + std::to_string(k) + " in " + ph[p] + " has value " + std::to_string(R.seen[p][k].val) + ", the caller passed " + std::to_string(wv) + " at that position"); return; }
       if (R.mode[k] == WM_VAL) { if (R.seen[p][k].addr != R.seen[0][k].addr || !R.seen[p][k].addr) { fail(p == 2 ? "C09,C08" : "C09", "wide_alias", who + ": _" + std::to_string(k) + " is a different object in " + ph[p]); return; } }
-      else if (R.mode[k] == WM_REF && !R.seen[p][k].nc) { fail("C09", "wide_const", who + ": _" + std::to_string(k) + " in " + ph[p] + " is const although the parameter is a non-const reference (a write through it could not reach the caller)"); return; }
+      else if ((R.mode[k] == WM_REF || R.mode[k] == WM_PREF) && !R.seen[p][k].nc) { fail("C09", "wide_const", who + ": _" + std::to_string(k) + " in " + ph[p] + " is const although the parameter is a non-const reference (a write through it could not reach the caller)"); return; }
       else if (R.seen[p][k].addr != R.want_addr[k]) { fail(p == 2 ? "C09,C08" : "C09", "wide_alias", who + ": _" + std::to_string(k) + " in " + ph[p] + " does not alias the caller's argument (passing mode " + std::to_string(R.mode[k]) + ")"); return; }
     }
     if ((R.mode[k] == WM_REF || R.mode[k] == WM_PTR) && R.after[k] != 1000 + k) { fail("C09", "wide_out_param", who + ": a write through _" + std::to_string(k) + " is not seen by the caller"); return; }
